@@ -59,7 +59,7 @@ def lean_sources():
     return sorted(out)
 
 
-THOROUGH_SCALE = {'C01': 24, 'C02': 40, 'C03': 24, 'C04': 6, 'C06': 20, 'C07': 20, 'C08': 30, 'C09': 4, 'C10': 4, 'C11': 4, 'C12': 20,
+THOROUGH_SCALE = {'C01': 24, 'C02': 40, 'C03': 24, 'C04': 4, 'C06': 20, 'C07': 20, 'C08': 30, 'C09': 4, 'C10': 4, 'C11': 4, 'C12': 20,
                   'C13': 2, 'C14': 12, 'C15': 40, 'C20': 60}
 
 
@@ -181,9 +181,16 @@ class Driver:
     def ask_many(self, lines):
         """pipeline a batch (much faster than one round trip per line)"""
         res = []
-        CH = 200
-        for i in range(0, len(lines), CH):
-            chunk = lines[i:i + CH]
+        # chunks bounded in lines AND bytes: the driver answers while we are still writing, and a pipe holds 64 KiB; a chunk
+        # whose requests or answers exceed that would block both sides for ever (answers are about as long as requests)
+        chunks, cur, size = [], [], 0
+        for ln in lines:
+            if cur and (len(cur) >= 200 or size + len(ln) + 1 > 24000):
+                chunks.append(cur); cur, size = [], 0
+            cur.append(ln); size += len(ln) + 1
+        if cur:
+            chunks.append(cur)
+        for chunk in chunks:
             self.p.stdin.write('\n'.join(chunk) + '\n')
             self.p.stdin.flush()
             for ln in chunk:
